@@ -1,0 +1,15 @@
+//go:build verif
+
+// Contracts for the deductive verifier in /verif (comment-only; compiled only with -tags verif).
+// Under contract: one iteration of the generator's worker. main (flag parsing, goroutine start) is not.
+
+package main
+
+//@ func worker
+//@   requires source != nil && wg != nil && n >= 0
+//@   panics when oserr() || readfailed(source)
+//@   modifies nothing
+//@   ghost done, pos, readfailed, reads, oserr
+//@   loop 1
+//@     assumes i >= 0
+//@     invariant done(wg) == done(wg)@pre + $i && len(buf) == n / 8 && fresh(buf)
